@@ -1525,7 +1525,16 @@ def C03(tier, seed):
             threads = rng.choice([2, 4, 8, 16])
             per = rng.choice([20, 60, 150]) if tier == "quick" else rng.choice([60, 150, 400])
             pivots = [9, 12, 33, 63, 64, 65, c.get("cap", 64) - 1, c.get("cap", 64) + 1, c.get("mcapa", 32) + 1, 250]
+            rawmix = (i % 10 == 3 and out == "file")
+            if rawmix:
+                # every second line of a thread goes through the io::Write interface of the same file writer
+                c.pop("m", None)
+                c["bg"] = False
+                if i % 20 == 3 or c["mode"] == "async":
+                    c.update({"mode": "async", "pool": rng.choice([1, 4]), "mcapa": rng.choice([32, 200]), "flush_ms": 0})
+                    threads, per = max(threads, 4), max(per, 150)
             scens.append({"sc": len(scens) + 1, "kind": "stress", "out": out, "cfg": c, "threads": threads, "per": per,
+                          "rawmix": rawmix,
                           "lens": [max(9, x) for x in rng.sample(pivots, 5)], "noise": rng.randrange(1, 2 ** 31),
                           "origin": "stress",
                           # a format function that rejects some records after writing a part of the line
